@@ -497,8 +497,188 @@ def run_case(ctx, res, case):
             r.close()
 
 
+# ------------------------------------------------------------------------------
+# (b) the same schedulers with their two real threads: the work loop delivers
+#     tasks while the subscriber thread delivers state / control messages
+#
+class _YieldLock(object):
+    '''proxy around one of the scheduler's own locks: a short sleep before the
+    lock is acquired (an existing suspension point) widens the window between
+    what was read before and what is done under it'''
+
+    def __init__(self, lock, seed, name):
+        self._lock, self._seed, self._name = lock, seed, name
+        self._rngs = dict()
+
+    def _rng(self):
+        import random
+        import threading as mt
+        tn = mt.current_thread().name
+        if tn not in self._rngs:
+            self._rngs[tn] = random.Random('%s/%s/%s' % (self._seed,
+                                                         self._name, tn))
+        return self._rngs[tn]
+
+    def __enter__(self):
+        import time
+        time.sleep(self._rng().choice([0, 0, 0.0002, 0.0005, 0.001]))
+        return self._lock.__enter__()
+
+    def __exit__(self, *a):
+        return self._lock.__exit__(*a)
+
+    def acquire(self, *a, **k): return self._lock.acquire(*a, **k)
+    def release(self):          return self._lock.release()
+
+
+def gen_concurrent(rng, sched):
+    return {'kind': 'concurrent', 'scheduler': sched,
+            'seed': rng.randint(0, 2 ** 30),
+            'n_bulks': rng.randint(4, 12),
+            'pids': ['pilot.0000', 'pilot.0001'][:rng.choice([1, 2])],
+            'cores': {'pilot.0000': 4000, 'pilot.0001': 4000},
+            'events': []}
+
+
+def run_concurrent(ctx, res, case):
+    import time
+    import random
+    import threading as mt
+
+    wd  = ctx.workdir or os.getcwd()
+    rng = random.Random(case['seed'])
+    r   = Run(case, res, wd)
+    try:
+        comp, net = r.comp, r.net
+        for name in ('_wait_lock', '_pilots_lock'):
+            if hasattr(comp, name):
+                setattr(comp, name, _YieldLock(getattr(comp, name),
+                                               case['seed'], name))
+        ctl  = 'mem://c/%s' % rpc.CONTROL_PUBSUB
+        sta  = 'mem://c/%s' % rpc.STATE_PUBSUB
+        docs = [pilot_doc(p, case['cores'][p]) for p in case['pids']]
+        net.publish(ctl, rpc.CONTROL_PUBSUB, {'cmd': 'add_pilots',
+                    'arg': {'pilots': docs, 'tmgr': OWNER}}, who='driver')
+        while net.pump(): pass
+        for p in case['pids']:
+            for st in _PORDER[1:5]:
+                net.publish(sta, rpc.STATE_PUBSUB, {'cmd': 'update', 'arg': [
+                            {'uid': p, 'type': 'pilot', 'state': st}]},
+                            who='driver')
+        while net.pump(): pass
+
+        uids, errs = list(), list()
+        done = mt.Event()
+
+        def forwarded():
+            out = dict()
+            for ev in net.events('put', rpc.TMGR_STAGING_INPUT_QUEUE):
+                for t in ev['payload']:
+                    out[t['uid']] = out.get(t['uid'], 0) + 1
+            return out
+
+        def worker():
+            try:
+                n = 0
+                for b in range(case['n_bulks']):
+                    bulk = list()
+                    for _ in range(rng.randint(1, 4)):
+                        uid = 't.%03d' % n; n += 1
+                        uids.append(uid)
+                        bulk.append(task_doc(uid, None, 1))
+                    net.q_put('mem://c/%s' % rpc.TMGR_SCHEDULING_QUEUE,
+                              'default', bulk, who='driver')
+                    while net.q_len('mem://c/%s' % rpc.TMGR_SCHEDULING_QUEUE):
+                        comp.work_cb()
+                    time.sleep(rng.choice([0, 0.0005, 0.002]))
+            except Exception as e:
+                errs.append('work: %r' % e)
+            finally:
+                done.set()
+
+        def notifier():
+            # final notifications for whatever was forwarded so far trigger
+            # scheduling passes from the subscriber side
+            told = set()
+            try:
+                while not done.is_set() or set(forwarded()) - told:
+                    new = sorted(set(forwarded()) - told)[:3]
+                    if new:
+                        told.update(new)
+                        docs_ = list()
+                        for uid in new:
+                            d = task_doc(uid, None, 1)
+                            d.update({'pilot': case['pids'][0],
+                                      'state': rps.DONE})
+                            docs_.append(d)
+                        net.publish(sta, rpc.STATE_PUBSUB,
+                                    {'cmd': 'update', 'arg': docs_},
+                                    who='driver')
+                    while net.pump():
+                        pass
+                    time.sleep(0.0005)
+                    if done.is_set() and not new:
+                        break
+            except Exception as e:
+                errs.append('notify: %r' % e)
+
+        a = mt.Thread(target=worker,   name='work-loop')
+        b = mt.Thread(target=notifier, name='subscriber')
+        a.start(); b.start()
+        a.join(timeout=60); b.join(timeout=60)
+        res.count('concurrent_histories')
+        ctx_ = {'case': case, 'errors': errs}
+        if a.is_alive() or b.is_alive():
+            res.violation('concurrent/deadlock', 'threads did not finish',
+                          ctx_)
+            return
+        # one more pass from the subscriber side, nothing else running
+        fw = forwarded()
+        if fw:
+            uid = sorted(fw)[0]
+            d = task_doc(uid + '.x', None, 1)
+            net.publish(sta, rpc.STATE_PUBSUB, {'cmd': 'update', 'arg': [
+                        {'uid': case['pids'][0], 'type': 'pilot',
+                         'state': rps.PMGR_ACTIVE}]}, who='driver')
+            while net.pump(): pass
+        for e in errs:
+            res.violation('concurrent/raised', e, ctx_)
+            return
+        for e in net.errors:
+            res.violation('concurrent/callback-raised', e[2], ctx_)
+            return
+        fw   = forwarded()
+        pool = set(getattr(comp, '_wait_pool', {}) or {})
+        for uid in uids:
+            res.count('concurrent_tasks_checked')
+            n = fw.get(uid, 0)
+            if n > 1:
+                res.violation('concurrent/forwarded-twice', '%s: %d times'
+                              % (uid, n), ctx_)
+                return
+            if n == 0 and uid not in pool:
+                res.violation('concurrent/task-lost', '%s was handed to the '
+                              'scheduler, was never forwarded and is not in '
+                              'the wait pool either' % uid, ctx_)
+                return
+    finally:
+        r.close()
+
+
 def run(ctx):
     res = Result()
+    rng = ctx.rng('conc')
+    for i in range(ctx.n(400, 12000)):
+        case = gen_concurrent(rng, 'round_robin' if i % 3 == 0
+                                   else 'backfilling')
+        try:
+            run_concurrent(ctx, res, case)
+        except RuntimeError as e:
+            res.violation('history-stuck', repr(e), {'case': case})
+        res.evaluations += 1
+        if len(res.violations) > 40:
+            break
+
     rng = ctx.rng('cases')
     for i in range(ctx.n(5000, 150000)):
         case = gen_case(rng, 'round_robin' if i % 2 else 'backfilling')
@@ -510,5 +690,11 @@ def run(ctx):
 
 def replay(case, ctx):
     res = Result()
+    if case['case'].get('kind') == 'concurrent':
+        for _ in range(20):
+            run_concurrent(ctx, res, case['case'])
+            if res.violations:
+                break
+        return res
     run_case(ctx, res, case['case'])
     return res
